@@ -28,7 +28,7 @@ HAND_LEMMAS = [
     "telescoping: ascr + lscr == score - pred.score per segment sums to entry(last).score - entry(0).score == the score find_exit reports (entry(0).score == 0)",
     "frames searched == frames the front end produced: search_module_forward searches every queued frame exactly once (proved), decoder_process_int16 returns the sum over its rounds (proved); that the queue receives every front-end frame is the acmod ring discipline (C07, reader side only)",
 ]
-NOT_COVERED = ["fsg_search_seg_iter backtrace loop (order of hist[])", "decoder_end_utt's final forward", "hypothesis string vs. segment words", "front-end frame count (C06)"]
+NOT_COVERED = ["fsg_search_seg_iter backtrace loop (order of hist[])", "decoder_end_utt's final forward", "hypothesis string vs. segment words", "front-end frame count (C06)", "the items above are NOT under contract; on real decodes they are exercised only by the bounded native run e2e_invariants (tiling, hypothesis = segment words, score sum, ~25 decodes) -- never counted as proved"]
 CLAIM = dict(
     text="fsg_seg_bp2itor, the function that turns one history entry into a segment, is proved for all entries (loop-free, full domain): ef is the entry's frame, sf is the frame after its predecessor's (a zero-length marker for null arcs), lscr is the shifted arc probability and ascr + lscr equals the path-score difference to the predecessor. Frame counters: search_module_forward is proved (loop invariant + termination) to search every queued frame exactly once, in order, advancing the decoder's frame count by the number it returns; decoder_process_int16 and decoder_process_float32 are proved to return the total searched over all their internal rounds. Tiling and score additivity of a whole segmentation follow by two hand lemmas (induction along the backtrace).",
     note="assumed: ghost-cell history view, frame monotonicity and score range as preconditions, acmod_process_raw; hand lemmas for tiling/telescoping; float32 entry point and seg_iter loop not covered; end-to-end invariants on ~12 real decodes by a bounded native run (native/e2e_invariants.c), never counted as proved",
